@@ -311,6 +311,7 @@ GENERATED = {
                         ("extensions.go", "MarshalExtensions", "gen_marshal_extensions")],
     # cryptobyte.String reader code (translate/reader.go): decision trees over a generated state record
     "Gen/Readers.v": [("tile.go", "readTileLeaf", "gen_rtl", "reader"),
+                      ("extensions.go", "ParseExtensions", "gen_pext", "reader"),
                       ("checkpoint.go", "NewRFC6962Verifier", "gen_nsig", "reader"),
                       ("checkpoint.go", "RFC6962SignatureTimestamp", "gen_sigts", "reader")],
 }
